@@ -26,6 +26,9 @@
 #define __STDC_WANT_LIB_EXT1__ 1 /* Detect if the C library has memset_s */
 #include <stdlib.h>
 #include <string.h>
+#if defined(TINYJAMBU_VERIF)
+#include "tinyjambu-util.h" /* TINYJAMBU_VERIF_POINT */
+#endif
 #if defined(HAVE_STRINGS_H)
 #include <strings.h>
 #endif
@@ -52,6 +55,9 @@ void tinyjambu_clean(void *buf, unsigned size)
     while (size > 0) {
         *d++ = 0;
         --size;
+#if defined(TINYJAMBU_VERIF)
+        TINYJAMBU_VERIF_POINT(6);
+#endif
     }
 #endif
 }
